@@ -445,7 +445,7 @@ class C16(Property):
             elif r < 0.8:
                 yield {'k': 'r', 'text': self.mutate_text(self.std_text(c))}
             else:
-                yield self.random_live_case(big=rng.random() < 0.1)
+                yield self.random_live_case(big=rng.random() < 0.1, session=True)
 
     # ------------------------------------------------------------------ generation: live call chains
     LIVE_FILES = ['/bv/c16/m%d.py', '/bv c16/d\u00e9 %d/mod.py', 'rel%d.py', '<bv-gen-%d>', 'C:\\bv\\m%d.py',
@@ -501,7 +501,7 @@ class C16(Property):
                 ln['n'] = rng.choice([0, 1, 2, 3, 4, 6])
         return ln
 
-    def random_live_case(self, big=False):
+    def random_live_case(self, big=False, session=False):
         rng = self.rng
         nm = rng.randint(1, 3)
         mods = []
@@ -539,6 +539,9 @@ class C16(Property):
             case['skip'] = rng.choice([1, 1, 2, 3])
         if rng.random() < 0.3:
             case['seq'] = rng.choice(['dict', 'build'])
+        if rng.random() < (0.5 if session else 0.2):
+            case['exc'] = dict(self.random_capture(nm, False), m=exc['m'])
+            case['prior'] = [self.random_capture(nm, True) for _ in range(rng.randint(1, 3))]
         return case
 
     def live_family(self):
@@ -618,6 +621,111 @@ class C16(Property):
             yield case([pin], [call], exc={'kind': 'modattr', 'm': 0, 'args': ['x'], 'mod': mod})
         for args in self.LIVE_ARGS:
             yield case([pin], [], exc={'kind': 'strsub', 'm': 0, 'args': args})
+        # sessions: several captures in one process; exception classes that share a module and a bare name (classes
+        # nested in classes / functions), share a qualified name across modules, are redefined between captures, or
+        # are the same object with its naming attributes reassigned between captures
+        for c in self.session_family(case, pin, call):
+            yield c
+
+    SESSION_PAIRS = [
+        # (earlier capture, later capture): what the two classes have in common
+        ({'kind': 'inner', 'outer': 'Lexer', 'cname': 'Error'}, {'kind': 'inner', 'outer': 'Parser', 'cname': 'Error'}),
+        ({'kind': 'nested', 'outer': 'mk_a', 'cname': 'LocalErr'}, {'kind': 'nested', 'outer': 'mk_b', 'cname': 'LocalErr'}),
+        ({'kind': 'top', 'cname': 'Error'}, {'kind': 'inner', 'outer': 'Box', 'cname': 'Error'}),
+        ({'kind': 'inner', 'outer': 'Box', 'cname': 'Error'}, {'kind': 'top', 'cname': 'Error'}),
+        ({'kind': 'top', 'cname': 'TopErr'}, {'kind': 'top', 'cname': 'TopErr'}),              # redefined, same names
+        ({'kind': 'builtin', 'name': 'ValueError'}, {'kind': 'top', 'cname': 'ValueError'}),   # shadows a builtin's name
+        ({'kind': 'top', 'cname': 'KeyError'}, {'kind': 'builtin', 'name': 'KeyError'}),
+        ({'kind': 'modattr', 'mod': 'builtins', 'cname': 'E'}, {'kind': 'modattr', 'mod': 'x.y', 'cname': 'E'}),
+        ({'kind': 'modattr', 'mod': 'x.y', 'cname': 'E'}, {'kind': 'modattr', 'mod': '__main__', 'cname': 'E'}),
+        ({'kind': 'modattr', 'mod': None, 'cname': 'E'}, {'kind': 'modattr', 'mod': 'None', 'cname': 'E'}),
+        ({'kind': 'modattr', 'mod': 'a.b', 'cname': 'C'}, {'kind': 'modattr', 'mod': 'a', 'cname': 'C', 'set': {'__qualname__': 'b.C'}}),
+        ({'kind': 'strsub', 'cname': 'Error'}, {'kind': 'inner', 'outer': 'K', 'cname': 'Error'}),
+    ]
+    # the same class object, renamed between the captures
+    SESSION_SETS = [
+        ({'__module__': 'x.y'}, {'__module__': 'builtins'}), ({'__module__': '__main__'}, {'__module__': 'pkg'}),
+        ({'__qualname__': 'A.Err'}, {'__qualname__': 'B.Err'}), ({'__name__': 'Renamed'}, {'__qualname__': 'Q'}),
+        ({'__module__': 'm', '__qualname__': 'A.B'}, {'__module__': 'm.A', '__qualname__': 'B'}),
+        ({}, {'__module__': None}), ({'__module__': None}, {'__module__': 'bvm0'}),
+    ]
+
+    def session_family(self, case, pin, call):
+        def cap(spec, args, **kw):
+            return dict(dict(spec, args=args), **kw)
+        for a, b in self.SESSION_PAIRS:
+            for via in ('ep', 'pe'):
+                yield case([pin], [call], exc=cap(b, ['x'], m=0), prior=[cap(a, ['y: z'], via=via)])
+            yield case([pin], [], exc=cap(b, [''], m=0), prior=[cap(a, ['u'], via='ep'), cap(b, ['v'], via='pe'), cap(a, [], via='ep')])
+            # the two classes live in two modules of the same / of different names
+            for n2 in ('bvm0', 'bvm1', '__main__'):
+                yield case([pin, {'file': '/bv/c16/m1.py', 'name': n2, 'reg': 'cache'}], [call], exc=cap(b, ['x'], m=0),
+                           prior=[cap(a, ['y'], m=1, via='ep')])
+        for s1, s2 in self.SESSION_SETS:
+            for kind in ('top', 'inner'):
+                yield case([pin], [call], exc={'kind': kind, 'm': 0, 'args': ['x'], 'set': s2},
+                           prior=[{'kind': 'same', 'args': ['y'], 'set': s1, 'via': 'ep'}])
+                yield case([pin], [], exc={'kind': kind, 'm': 0, 'args': [], 'set': s1},
+                           prior=[{'kind': 'same', 'args': ['y'], 'set': s2, 'via': 'pe'},
+                                  {'kind': 'same', 'args': ['w'], 'set': s1, 'via': 'ep'}])
+
+    def random_capture(self, nm, prior):
+        rng = self.rng
+        kind = rng.choice(['builtin', 'top', 'nested', 'inner', 'strsub', 'modattr'] + (['same', 'same'] if prior else []))
+        c = {'kind': kind, 'args': rng.choice(self.LIVE_ARGS)}
+        if kind == 'builtin':
+            c['name'] = rng.choice(self.BUILTIN_EXC)
+        elif kind != 'same':
+            c['cname'] = rng.choice(['Error', 'Err', 'E', 'ValueError', 'C'])
+            if kind in ('nested', 'inner'):
+                c['outer'] = rng.choice(['A', 'B', 'mk', 'Lexer'])
+            if kind == 'modattr':
+                c['mod'] = rng.choice(['builtins', '__main__', 'x.y', None, 'bvm0', 'A'])
+        if kind == 'same' or (kind != 'builtin' and rng.random() < 0.25):
+            st = {}
+            if rng.random() < 0.6:
+                st['__module__'] = rng.choice(['builtins', '__main__', 'x.y', None, 'bvm0', 'A', ''])
+            if rng.random() < 0.6:
+                st['__qualname__'] = rng.choice(['A.Error', 'B.Error', 'Error', 'mk.<locals>.E', 'E'])
+            if rng.random() < 0.2:
+                st['__name__'] = rng.choice(['Error', 'E', 'N'])
+            c['set'] = st
+        if prior:
+            c['via'] = rng.choice(['ep', 'pe'])
+            if nm > 1 and rng.random() < 0.3:
+                c['m'] = rng.randrange(nm)
+        return c
+
+    @staticmethod
+    def _exc_def(L, exc, tag):
+        """append the definition of the exception class of one capture to the module source L; returns the
+        expression that names the class. 'cname' = the class's bare name, 'outer' = the enclosing class / function"""
+        k = exc['kind']
+        if k == 'builtin':
+            return exc['name']
+        if k == 'top':
+            cn = exc.get('cname', 'TopErr')
+            L += ['class %s(Exception):' % cn, '    pass']
+            return cn
+        if k == 'nested':
+            cn, mk = exc.get('cname', 'LocalErr'), exc.get('outer', 'mk' + tag)
+            L += ['def %s():' % mk, '    class %s(Exception):' % cn, '        pass', '    return %s' % cn,
+                  '%s%s = %s()' % (cn, tag, mk)]
+            return cn + tag
+        if k == 'inner':
+            cn, outer = exc.get('cname', 'InnerErr'), exc.get('outer', 'Outer' + tag)
+            L += ['class %s:' % outer, '    class %s(ValueError):' % cn, '        pass']
+            return '%s.%s' % (outer, cn)
+        if k == 'strsub':
+            cn = exc.get('cname', 'StrErr')
+            L += ['class %s(Exception):' % cn, '    def __str__(self):',
+                  '        return "/".join(str(a) for a in self.args)']
+            return cn
+        if k == 'modattr':
+            cn = exc.get('cname', 'ModErr')
+            L += ['class %s(Exception):' % cn, '    pass', '%s.__module__ = %r' % (cn, exc['mod'])]
+            return cn
+        raise ValueError(k)
 
     @staticmethod
     def program(case):
@@ -705,28 +813,29 @@ class C16(Property):
         n = len(links)
         L = srcs[exc['m']]
         args = ', '.join(repr(a) for a in exc['args'])
-        k = exc['kind']
-        if k == 'builtin':
-            cls = exc['name']
-        elif k == 'top':
-            L += ['class TopErr(Exception):', '    pass']
-            cls = 'TopErr'
-        elif k == 'nested':
-            L += ['def mk():', '    class LocalErr(Exception):', '        pass', '    return LocalErr', 'LocalErr = mk()']
-            cls = 'LocalErr'
-        elif k == 'inner':
-            L += ['class Outer:', '    class InnerErr(ValueError):', '        pass']
-            cls = 'Outer.InnerErr'
-        elif k == 'strsub':
-            L += ['class StrErr(Exception):', '    def __str__(self):',
-                  '        return "/".join(str(a) for a in self.args)']
-            cls = 'StrErr'
-        elif k == 'modattr':
-            L += ['class ModErr(Exception):', '    pass', 'ModErr.__module__ = %r' % (exc['mod'],)]
-            cls = 'ModErr'
-        else:
-            raise ValueError(k)
-        L += ['def fn%d():' % n, '    raise %s(%s)' % (cls, args), 'R[%d] = fn%d' % (n, n)]
+        priors = case.get('prior') or []
+        cls = C16._exc_def(L, exc, '')
+        sets = ['    XC.%s = %r' % (a, v) for a, v in sorted((exc.get('set') or {}).items())]
+        if priors or sets:
+            L += ['XC = %s' % cls]
+        L += ['def fn%d():' % n] + sets + ['    raise %s(%s)' % (cls, args), 'R[%d] = fn%d' % (n, n)]
+        # earlier captures of the same session: other exception classes (same bare name, other qualified name;
+        # the same class object with its naming attributes reassigned; same names in another module ...), each
+        # raised by a function of its own
+        for j, pr in enumerate(priors):
+            P = srcs[pr.get('m', exc['m'])]
+            tag = 'p%d' % j
+            if pr['kind'] == 'same':
+                P += ['XC%s = None' % tag]
+                who = 'R[%r]' % 'XC'
+            else:
+                P += ['XC%s = %s' % (tag, C16._exc_def(P, pr, tag))]
+                who = 'XC%s' % tag
+            P += ['def pfn%d():' % j]
+            P += ['    %s.%s = %r' % (who, a, v) for a, v in sorted((pr.get('set') or {}).items())]
+            P += ['    raise %s(%s)' % (who, ', '.join(repr(a) for a in pr['args'])), 'R[%r] = pfn%d' % ('P%d' % j, j)]
+        if any(pr['kind'] == 'same' for pr in priors):
+            srcs[exc['m']] += ['R[%r] = XC' % 'XC']
         return ['\n'.join(l) + '\n' for l in srcs]
 
     class _Loader:
@@ -838,6 +947,15 @@ class C16(Property):
         R = {}
         load(srcs, R)
         info = cur = None
+        # the earlier captures of the session (exception part only: nothing here looks a source line up)
+        self._prior_obs = []
+        for j, pr in enumerate(case.get('prior') or []):
+            try:
+                R['P%d' % j]()
+            except BaseException:
+                et, ev, tb = sys.exc_info()
+                self._prior_obs.append(self._capture_names(tbutils, et, ev, tb, pr.get('via', 'ep')))
+                et = ev = tb = None
         try:
             R[0]()
         except BaseException:
@@ -860,6 +978,46 @@ class C16(Property):
             if mods[i].get('gone'):
                 os.unlink(paths[i])
         return info, paths, cur
+
+    @staticmethod
+    def _type_attrs(et):
+        """what the interpreter hands over about the exception's class: [__module__ (None when it is no str), __qualname__]"""
+        mod = et.__module__
+        return [mod if isinstance(mod, str) else None, et.__qualname__]
+
+    @staticmethod
+    def _std_type(attrs):
+        """the interpreter's display name of an exception class (traceback.TracebackException; written down here and
+        cross-checked against traceback.format_exception_only on every capture)"""
+        mod, qual = attrs
+        if mod in ('__main__', 'builtins'):
+            return qual
+        return ('<unknown>' if mod is None else mod) + '.' + qual
+
+    def _capture_names(self, tbutils, et, ev, tb, via):
+        """one capture of a session, exception part only: ExceptionInfo (type, message, exception-only text) and
+        print_exception without traceback, against the traceback module; 'via' = which of the two is asked first"""
+        o = {'attrs': self._type_attrs(et)}
+        only = traceback.format_exception_only(et, ev)
+        o['std_only'] = ''.join(only)
+        o['std_msg'] = str(ev)
+        o['std_type'] = self._std_type(o['attrs'])
+        assert o['std_only'] == o['std_type'] + (': ' + o['std_msg'] if o['std_msg'] else '') + '\n'
+        try:
+            with time_limit(10):
+                for step in via:
+                    if step == 'e':
+                        ei = tbutils.ExceptionInfo.from_exc_info(et, ev, tb)
+                        o['ei_type'], o['ei_msg'], o['ei_only'] = ei.exc_type, ei.exc_msg, ei.get_formatted_exception_only()
+                    else:
+                        buf = io.StringIO()
+                        tbutils.print_exception(et, ev, None, file=buf)
+                        o['print'] = buf.getvalue()
+        except CaseTimeout:
+            o['exc'] = 'CaseTimeout'
+        except Exception as e:
+            o['exc'] = exc_name(e)
+        return o
 
     # ------------------------------------------------------------------ what linecache can see (model input)
     @staticmethod
@@ -993,6 +1151,8 @@ class C16(Property):
                         linecache.cache.pop(m['file'], None)
             # --- what the interpreter hands over (model input), before anybody looks a line up
             obs['walk'] = self._snapshot(tb)
+            obs['attrs'] = self._type_attrs(et)
+            obs['prior'] = self._prior_obs
             if any(w[4] and w[4][0][0] == 's' and w[4][1][0] == 'n' and w[4][2][0] == 'y' for w in obs['walk']):
                 # a complete linecache entry whose file is gone while the module has a loader: the traceback module
                 # has no stable answer here (no source line on its first call - lazycache runs before checkcache -,
@@ -1026,10 +1186,7 @@ class C16(Property):
                 else:
                     obs['std_lim'] = obs['std'] if limit is None else None
                     obs['std_lim_plain'] = obs['std_plain'] if limit is None else None
-                stype = et.__qualname__
-                smod = et.__module__
-                if smod not in ('__main__', 'builtins'):
-                    stype = (smod if isinstance(smod, str) else '<unknown>') + '.' + stype
+                stype = self._std_type(obs['attrs'])
                 assert only[-1] == stype + (': ' + str(ev) if str(ev) else '') + '\n'
                 obs['std_type'], obs['std_msg'] = stype, str(ev)
 
@@ -1167,8 +1324,11 @@ class C16(Property):
                 return None
             lim = case.get('limit')
             tl = case.get('tblimit')
-            toks = ['L', 'n' if lim is None else str(lim), 'n' if tl is None else str(tl), hx(obs['std_type']),
-                    hx(obs['std_msg'])]
+            def tt(attrs):
+                return ('!' if attrs[0] is None else hx(attrs[0])) + ':' + hx(attrs[1])
+            pri = ';'.join('%s:%s' % (tt(o['attrs']), hx(o['std_msg'])) for o in obs.get('prior') or []) or '-'
+            toks = ['L', 'n' if lim is None else str(lim), 'n' if tl is None else str(tl), tt(obs['attrs']),
+                    hx(obs['std_msg']), pri]
             for fn, ln, name, fid, look in obs['walk']:
                 if look is None:
                     return None
@@ -1193,9 +1353,11 @@ class C16(Property):
             def hp(x, key):
                 return 'X' + obs.get(key + '_exc', '?') if x is None else hx(x)
             fr = ';'.join('%s,%d,%s,%s' % (hx(a), b, hx(c), hx(d)) for a, b, c, d in obs['ei_frames']) or '-'
-            return 'B=%s T=%s S=%s P=%s Q=%s N=%d F=%s' % (
+            ys = ';'.join('X' + o['exc'] if 'exc' in o else '%s,%s,%s' % (hx(o['ei_type']), hx(o['ei_only']), hx(o['print']))
+                          for o in obs.get('prior') or []) or '-'
+            return 'B=%s T=%s S=%s P=%s Q=%s N=%d F=%s Y=%s' % (
                 hx(obs['ei']), hx(obs['tbi']), hx(obs['std']), hp(obs['print'], 'print'),
-                hp(obs['print_lim'], 'print_lim'), obs['std_lim_n'], fr)
+                hp(obs['print_lim'], 'print_lim'), obs['std_lim_n'], fr, ys)
         if 'exc' in obs:
             out = 'err ' + obs['exc']
         else:
@@ -1275,6 +1437,19 @@ class C16(Property):
             if lk and lk[0][0] == 's' and (lk[1][0] == 'n' or lk[1][1:3] != lk[0][1:3]):
                 st['live_stale_cache_entry'] = st.get('live_stale_cache_entry', 0) + 1
                 break
+        # the earlier captures of the session: each names its own exception class, whatever was captured before
+        for j, o in enumerate(obs.get('prior') or []):
+            st['live_session_capture'] = st.get('live_session_capture', 0) + 1
+            if 'exc' in o:
+                return Failure('raises', 'boltons raised %s on capture #%d of the session' % (o['exc'], j + 1))
+            if o['ei_type'] != o['std_type'] or o['ei_msg'] != o['std_msg']:
+                return Failure('exc_fields', 'capture #%d of the session: ExceptionInfo (%r, %r), interpreter (%r, %r)'
+                               % (j + 1, o['ei_type'], o['ei_msg'], o['std_type'], o['std_msg']))
+            if o['ei_only'] + '\n' != o['std_only'] or o['print'] != o['std_only']:
+                return Failure('format', 'capture #%d of the session: get_formatted_exception_only() = %r, print_exception '
+                               'wrote %r, interpreter = %r' % (j + 1, o['ei_only'], o['print'], o['std_only']))
+        if obs.get('prior'):
+            st['live_sessions'] = st.get('live_sessions', 0) + 1
         if ef != sf:
             return Failure('frames', 'ExceptionInfo frames %r, extract_tb %r' % (ef, sf))
         lf = [[a, b, c, d.strip()] for a, b, c, d in obs['std_lim_frames']]
@@ -1461,7 +1636,19 @@ class C16(Property):
             yield {k: v for k, v in case.items() if k != 'skip'}
         if case.get('seq'):
             yield {k: v for k, v in case.items() if k != 'seq'}
+        pri = case.get('prior') or []
+        for i in range(len(pri)):
+            rest = pri[:i] + pri[i + 1:]
+            yield dict({k: v for k, v in case.items() if k != 'prior'}, **({'prior': rest} if rest else {}))
+        for i, pr in enumerate(pri):
+            for key in ('via', 'm'):
+                if key in pr:
+                    yield dict(case, prior=pri[:i] + [{k: v for k, v in pr.items() if k != key}] + pri[i + 1:])
+            if pr['args'] != ['x']:
+                yield dict(case, prior=pri[:i] + [dict(pr, args=['x'])] + pri[i + 1:])
         exc = case['exc']
+        if pri:
+            return          # the classes of a session refer to each other: keep them
         if exc['kind'] != 'builtin':
             yield dict(case, exc={'kind': 'builtin', 'name': 'ValueError', 'm': exc['m'], 'args': exc['args']})
         if exc['args'] != ['x']:
